@@ -113,7 +113,9 @@ def run(ctx, f, rep):
         rep.bad("R18.3", "R18.3|anchor", "Socket::unbind not found (anchor-missing)")
     else:
         seen = {"hit": 0, "miss": 0}
-        for p in pathq.paths(f, u):
+        # (a crate-private wrapper around the handle's shutdown is looked through; TaskHandle::shutdown itself stays a call)
+        th_shutdown = {p_ for p_ in f.fns if p_.endswith("::shutdown") and "TaskHandle" in p_}
+        for p in pathq.paths_keeping(f, u, th_shutdown):
             if p.end != "return":
                 continue
             rm = [(i, ev) for i, ev in pathq.calls(p, "remove") if "HashMap" in ev.name]
